@@ -1,5 +1,5 @@
 (* Extraction of the executable parser model and the C08 specification (ExtrOcamlBasic only). *)
 From MptV Require Import C08.ParseModel C08.ParseSpec.
 Require Import ExtrOcamlBasic.
-Extraction "c08_model.ml" parse_format parse_accept allow_init allow_variant next_fcn parse_events parse_node
+Extraction "c08_model.ml" parse_format parse_accept allow_init allow_variant next_fcn parse_events parse_events_b parse_node
   nested first_bad calls_ok.
